@@ -134,6 +134,11 @@ def run(ctx):
     E.run(rep, 'numeric', [list(NUM_OPS), nums, nums, WS], _num_case)
     E.run(rep, 'string', [list(STR_OPS), STRS, STRS, WS], _str_case)
     E.run(rep, 'plain', [STRS, STRS], _plain_case)
+    # a quote is ordinary punctuation: operands bracketed by a matching pair of quotes
+    quoted = ['"abc"', "'abc'", '""', '"a', 'a"', '"a"b"', 'abc']
+    E.run(rep, 'string-quoted', [list(STR_OPS), quoted, quoted, WS[:2]], _str_case)
+    E.run(rep, 'plain-quoted', [quoted, quoted], _plain_case)
+    E.run(rep, 'or-quoted', [quoted[:4], [(a, b) for a in quoted[:4] for b in quoted[:4]]], _or_case)
     alts = []
     for n in (1, 2, 3, 4):
         alts += list(itertools.product(STRS[:5], repeat=n)) if n <= 3 else \
